@@ -34,7 +34,8 @@ PROPS = {
             "add_utf8_first_bytes_to_bitmap covers every code point of every interval; bitmap algebra; find_in = "
             "first admitted index); the driver is proved to attempt only admitted offsets, in increasing order, "
             "and to return what the exhaustive ordered scan returns whenever every successful offset is admitted "
-            "(oracle-stubbed interpreter, haystack <= 4 bytes). The start-predicate analysis is checked on bounded "
+            "(oracle-stubbed interpreter, haystack <= 4 bytes with Kani; for haystacks of ANY length with Verus, "
+            "cv_drivers, against the assumed contract of find_bytes). The start-predicate analysis is checked on bounded "
             "IR. Assumed (needs IR semantics): a successful attempt starts with a byte of FIRST(pattern)."),
     "C05": ("other", "Local progress only: an iteration past min that did not advance is rejected and iters strictly "
             "increases on enter (run_loop, both engines, all integers); loop data is restored on backtracking so the "
@@ -52,8 +53,12 @@ PROPS = {
             "exhaustion and hashbrown-based group pre-scan are outside both tools' models."),
     "C09": ("other", "Matches::new/next and both next_match drivers equal the unfold specification written from the "
             "property statement, with the interpreter replaced by an arbitrary deterministic oracle meeting "
-            "try_at_pos's contract; haystacks of 3 chars incl. a multi-byte one; every start offset incl. len+1; "
-            "6 calls of next(). Independent of the pattern; bounded in the haystack."),
+            "try_at_pos's contract. UNBOUNDED (Verus, on the function text extracted from /repo): the backtracker's "
+            "next_match_with_prefix_search / next_match_anchored / initial_position for ANY input length, prefilter and "
+            "regex (first admitted boundary whose attempt succeeds; cursor rule; termination), and Matches::new/next "
+            "for ANY producer - with the contracts of InputIndexer's primitives, try_at_pos and successful_match as "
+            "stated assumptions. BOUNDED (Kani, real primitives): the same on haystacks of 3 chars incl. a multi-byte "
+            "one, every start offset incl. len+1, and the PikeVM driver. Independent of the pattern."),
     "C10": ("other", "fold/uppercase are in range and idempotent for every code point; legacy uppercase(c) is compared "
             "with the ES legacy Canonicalize computed from std's Unicode tables for every char; the i+u word "
             "characters; fold_equals/backref_icase for every canonicalisation function (uninterpreted). "
